@@ -211,7 +211,7 @@ def tensor_ops(ctx, n):
         ctx.count(kind)
 
 
-def eps_delta(ctx):
+def eps_delta(ctx, prefix="C05"):
     from geometer.base import KroneckerDelta, LeviCivitaTensor
     reqs = [("eps", n) for n in range(1, 7)]          # size 6: the product of differences no longer fits into 8 bits
     dl = [(n, p) for n in range(1, 5) for p in range(1, n + 1)] + [(2, 3), (3, 4)]
@@ -235,7 +235,7 @@ def eps_delta(ctx):
             else:
                 ok = ok and t.tensor_shape == (r[2], r[2])
             if not ok:
-                ctx.disagree(f"C05:{r[0]}:entries", line, exp, (t.array.shape, t.tensor_shape), replay=[line])
+                ctx.disagree(f"{prefix}:{r[0]}:entries", line, exp, (t.array.shape, t.tensor_shape), replay=[line])
             # use the tensor in arithmetic; the cached array must not change (checked by the next round)
             _ = (t * 1).array + 1
             ctx.count(r[0])
